@@ -59,6 +59,7 @@ type interpreter struct {
 	inInit             int
 	callDepth          int
 	extState           map[string]interface{} // per-path scratch for intrinsics (codec tables, ...)
+	skipExtFor         *ssa.Function          // run the real body of this function once (set by an external that declines)
 }
 
 type deferred struct {
@@ -664,9 +665,15 @@ func callSSA(i *interpreter, caller *frame, callpos token.Pos, fn *ssa.Function,
 		caller: caller, // for panic/recover
 		fn:     fn,
 	}
-	if fn.Parent() == nil {
+	if i.skipExtFor == fn {
+		i.skipExtFor = nil
+	} else if fn.Parent() == nil {
 		name := fn.String()
-		if rf := lookupReplacement(i.prog, name); rf != nil {
+		rf := lookupReplacement(i.prog, name)
+		if rf == nil && i.extState != nil {
+			rf = i.lookupSwitchable(name)
+		}
+		if rf != nil {
 			if i.st != nil && i.inInit == 0 {
 				i.st.noteStub(name + " => model." + rf.Name())
 			}
